@@ -183,6 +183,9 @@ fn flat_case(ei: usize) -> impl Fn(Tier) -> BoxedStrategy<Case> + Send + Sync {
                 gen::stream(cfg).prop_map(move |mut xs| {
                     let reps = [n + 1, 2 * n + 3, 8 * n, if e.heavy { 12 * n } else { 50 * n }][rep];
                     let pre = xs.len();
+                    // one tail in eight is flat at exactly 0 (inside the envelope: it bounds the non-zero magnitudes only), except for the
+                    // two views whose domain is strictly positive; a window of zeros is where a running sum's residue is all that is left
+                    let c = if c % 8 == 0 && !matches!(e.name, "Drawdown" | "LnReturn") { 0 } else { c };
                     xs.extend(std::iter::repeat(Rat(c * g.0, g.1)).take(reps));
                     Case { spec: Some((e.mk)(n, p)), xs, ints: vec![ei as i64, 0, n as i64, pre as i64], a: Rat(1, 1), ..Default::default() }
                 })
@@ -217,6 +220,8 @@ fn flat_check(case: &Case) -> Verdict {
                 let stated: Option<R> = match e.name {
                     "Rsi" if tail >= n + 1 => Some(R::from_integer(100.into())),
                     "Vst" | "Sma" | "Alma" | "AlmaCustom" if tail >= n + 1 => Some(cv.clone()),
+                    // (Roc on a tail of zeros holds its previous output: the zero-base exception of C03)
+                    "Roc" if cv.is_zero() => None,
                     "Vsct" | "WelfordOnline" | "HLNormalizer" | "CTI" | "NET" | "Roc" if tail >= n + 1 => Some(R::zero()),
                     "Ema" if tail >= 12 * n => Some(cv.clone()),
                     "CyberCycle" if tail >= 12 * n => Some(R::zero()),
@@ -319,7 +324,7 @@ pub fn clauses() -> Vec<Clause> {
         let rule_full = format!("{}: envelope streams (every value g k, integer |k| <= 1000 or 0, decimal g, so non-zero magnitudes and steps span <= 3 decades) of up to {} values (thorough {}), N from the view's minimum; the crate's code at f64 (f32) and at the exact scalar Q over the same already-rounded inputs, compared at every step: |diff| <= 1e-6 S (f64) / 1e-2 S (f32), S = natural scale (largest input magnitude; N x that for Cumulative; width of the documented range for bounded indicators; max(1, |exact|) for Vst, Roc, LnReturn). Non-trivial: >= 10 N values and >= 3 steps compared.", e.name, if e.heavy { 300 } else { 1500 }, if e.heavy { 2000 } else { 20_000 });
         v.push(Clause::generated("C16", format!("C16/full/{}/f64", e.name), rule_full.clone(), if e.heavy { 24 } else { 40 }, if e.heavy { 200 } else { 600 }, full_case(ei, 0), full_check).with_shard(2));
         v.push(Clause::generated("C16", format!("C16/full/{}/f32", e.name), rule_full, if e.heavy { 12 } else { 24 }, if e.heavy { 100 } else { 300 }, full_case(ei, 1), full_check).with_shard(2));
-        v.push(Clause::generated("C16", format!("C16/flat/{}/f64", e.name), format!("{}: grammar prefix of 0..5N+10 values on a decimal grid (volatile: walks, spikes, steps) followed by N+1, 2N+3, 8N or 50N (12N for the recursive views) copies of a non-dyadic value; from the (N+1)-th identical value on, f64 vs the exact run within 1e-4 S, and at the end of the tail the answer the statement names for a flat window (Rsi 100; Vst, Sma, Alma the value; Vsct, WelfordOnline, HLNormalizer, CTI, NET, Roc 0; Ema the value and CyberCycle 0 after 12N values) within 1e-4 S. Non-trivial: the prefix is not constant and >= 1 step compared.", e.name), if e.heavy { 40 } else { 120 }, if e.heavy { 400 } else { 3000 }, flat_case(ei), flat_check).with_shard(if e.heavy { 4 } else { 10 }));
+        v.push(Clause::generated("C16", format!("C16/flat/{}/f64", e.name), format!("{}: grammar prefix of 0..5N+10 values on a decimal grid (volatile: walks, spikes, steps) followed by N+1, 2N+3, 8N or 50N (12N for the recursive views) copies of a non-dyadic value (one tail in eight: of exactly 0); from the (N+1)-th identical value on, f64 vs the exact run within 1e-4 S, and at the end of the tail the answer the statement names for a flat window (Rsi 100; Vst, Sma, Alma the value; Vsct, WelfordOnline, HLNormalizer, CTI, NET, Roc 0; Ema the value and CyberCycle 0 after 12N values) within 1e-4 S. Non-trivial: the prefix is not constant and >= 1 step compared.", e.name), if e.heavy { 40 } else { 120 }, if e.heavy { 400 } else { 3000 }, flat_case(ei), flat_check).with_shard(if e.heavy { 4 } else { 10 }));
     }
     v.push(Clause::generated("C16", "C16/long/f64", "finite-memory views (K from C03) over envelope streams of 2e4 / 1e5 (thorough 1e6) values derived from a generated seed (noise, slow walk with plateaus, signed noise): f64 run, exact answer at 24 evenly spaced checkpoints and the end from a fresh exact instance fed the last K+N values (valid by C03); |diff| <= 1e-6 S. Recursive views are contractive (C09) and are covered by the full-length exact runs instead.", 60, 600, long_case, long_check).with_shard(2));
     v
